@@ -3,6 +3,13 @@
 
     tlsh <buckets> <window> <chklen> <force T/F> <data>          digest | none | ERR            (model, spec)
     tlsh.rt <buckets> <window> <chklen> <force T/F> <data>       TLSH(cfg).from_hash(digest).digest().lsh_code | none | ERR
+    tlsh.final <buckets> <window> <chklen> <force> <l-list of bucket counts> <data_len> <checksum bytes>
+                                                                  final(b'',force).digest() on an object whose a_bucket / data_len /
+                                                                  checksum were set directly: digest | none | ERR   (model, spec)
+    tlsh.qscan <buckets> <window> <chklen> <q3> <mode d|t>        the Q byte (2 hex digits; `--` = None, `EE` = exception) of the state
+                                                                  `scanBuckets` for q1=q2=0..q3 (d) / all 0≤q1≤q2≤q3 (t)  (model, spec)
+    tlsh.qexact <lo> <hi>                                         `n=<number of pairs 0≤q≤q3, lo≤q3<hi>;bad=`: the model's claim that the
+                                                                  float Q-ratio expressions of the source equal q*100/q3 % 16 on all of them
     tlsh.lcap <len>                                               l_capturing for data_len=len   (Float.log instance)
     tlsh.lcaprange <lo> <hi>                                      `len:value` at lo and at every change in [lo,hi)
     tlsh.fromhash <buckets> <window> <chklen> <digest>            re-serialised digest and fields | ERR
@@ -83,8 +90,53 @@ def specDistForm (c : Tlsh.Cfg) (d1 d2 : List Nat) (lv : Bool) : String :=
 
 def forms : List (String × Char × Char) := [("oo", 'o', 'o'), ("ob", 'o', 'b'), ("bo", 'b', 'o'), ("bb", 'b', 'b')]
 
+/-- the bucket array of `tlsh.qscan`: a quarter of the first `b` buckets at each of q1, q2, q3, q3+1 (so the order
+    statistics are exactly q1 ≤ q2 ≤ q3), the buckets beyond `b` (ignored by 48/128-bucket configurations) at q3+7 -/
+def scanBuckets (b q1 q2 q3 : Nat) : List Nat :=
+  let l := b / 4
+  List.replicate l q1 ++ List.replicate l q2 ++ List.replicate l q3 ++ List.replicate l (q3 + 1)
+    ++ List.replicate (256 - 4 * l) (q3 + 7)
+
+def scanPairs (q3 : Nat) (mode : String) : List (Nat × Nat) :=
+  if mode = "d" then (List.range (q3 + 1)).map fun q => (q, q)
+  else (List.range (q3 + 1)).flatMap fun q1 => (List.range (q3 + 1 - q1)).map fun k => (q1, q1 + k)
+
+def hex2 (b : Nat) : String := String.ofList [hexDigit ((b / 16) % 16), hexDigit (b % 16)]
+
+def scanModel (cfg : Tlsh.Cfg) (q3 : Nat) (mode : String) : String :=
+  String.join ((scanPairs q3 mode).map fun (q1, q2) =>
+    match Tlsh.finalOf lcapF cfg ⟨List.replicate cfg.chklen 0, scanBuckets cfg.buckets q1 q2 q3⟩ 256 false with
+    | .ok (some o) => hex2 ((o.q1 <<< 4) ||| o.q2)
+    | .ok none => "--"
+    | .error _ => "EE")
+
+def scanSpec (cfg : Tlsh.Cfg) (q3 : Nat) (mode : String) : String :=
+  String.join ((scanPairs q3 mode).map fun (q1, q2) =>
+    match Spec.Tlsh.encode lcapF cfg.buckets (scanBuckets cfg.buckets q1 q2 q3) (List.replicate cfg.chklen 0) 256 false with
+    | some d => hex2 (d.getD (cfg.chklen + 1) 0)
+    | none => "--")
+
 def handle : Handler := fun op args =>
   match op, args with
+  | "tlsh.final", [b, w, c, f, bk, n, ck] => do
+      let cfg ← parseCfg? b w c; let f ← parseBool? f; let bk ← parseNatList? bk; let n ← parseNat? n
+      let ck ← parseBytes? ck
+      let m := if cfg.valid = false then "ERR" else
+        fmtOptBytes ((Tlsh.finalOf lcapF cfg ⟨ck, bk⟩ n f).map (·.map Tlsh.digest))
+      let s := if cfg.valid && bk.length == 256 && ck.length == cfg.chklen then
+                 (match Spec.Tlsh.encode lcapF cfg.buckets bk ck n f with
+                  | some d => fmtBytes d | none => "none")
+               else "-"
+      pure (m, s)
+  | "tlsh.qexact", [lo, hi] => do
+      let lo ← parseNat? lo; let hi ← parseNat? hi
+      let n := (List.range (hi - lo)).foldl (fun s k => s + (lo + k + 1)) 0
+      pure (s!"n={n};bad=", "-")
+  | "tlsh.qscan", [b, w, c, q3, mode] => do
+      let cfg ← parseCfg? b w c; let q3 ← parseNat? q3
+      if mode ≠ "d" ∧ mode ≠ "t" then none else
+      if cfg.valid = false then pure ("ERR", "ERR") else
+      pure (scanModel cfg q3 mode, scanSpec cfg q3 mode)
   | "tlsh", [b, w, c, f, x] => do
       let cfg ← parseCfg? b w c; let f ← parseBool? f; let x ← parseBytes? x
       let m := fmtOptBytes (Tlsh.tlsh lcapF cfg x f)
